@@ -79,7 +79,7 @@ claim('C01', 'integer-cast audit of the marshalling writers and of the constant-
 claim('C15', 'writer/reader sibling cross-check (ordered field, version, encoding lists), marshal type-code table, reader panic audit',
       'Decides: code-object layout agreement between CodeObj::into_bytes and from_bytes per version, fast-local kind agreement, DataTypePrefix == marshal.c codes, '
       'no lossy width in the writers, normalized TYPE_LONG digit counts (R6: count = ceil(bits/15) for every bit length), and lists every panicking operation of the reader on '
-      'input-derived data (12 known findings: the reader is not total).',
+      'input-derived data (the 12 panicking operations present at the start were repaired in cbe78429; early-return length guards are recognised). The disassembly display of a well-formed file with corrupted bytecode is not judged.',
       'Value equality after marshal.loads of strings/tuples is not decided. The marshal code table is frozen and cross-checked against marshal.dumps in the thorough tier.',
       'DESIGN.md §3 C15')
 
